@@ -231,6 +231,19 @@ def run_case(ctx, case, model=True):
                     ctx.fail("predicate", "turbine-powers-do-not-add-up", f"step {t}: {g} + {st} != {pc}", where)
                 if not close(g, ratio * pc, scale=cg.rated_power):
                     ctx.fail("predicate", "gas-turbine-power-not-share-times-power", f"step {t}: gas {g} != share {ratio} x {pc}", where)
+                # "follow the given split curves": the share at this load is that of the two GIVEN power curves at this load (interpolated
+                # the way FEEMS interpolates every curve, PCHIP - built here from the case's own points, not read from the component)
+                cs = case["spec"]["cogas"]
+                if cs.get("gt_curve") is not None and cs.get("st_curve") is not None and len(cs["gt_curve"]) > 1:
+                    from scipy.interpolate import PchipInterpolator
+                    gp, sp = (np.array(sorted(cs[k]), dtype=float) for k in ("gt_curve", "st_curve"))
+                    ld = pc / cs["rated"]
+                    if gp[0, 0] <= ld <= gp[-1, 0]:
+                        gv, sv = float(PchipInterpolator(gp[:, 0], gp[:, 1])(ld)), float(PchipInterpolator(sp[:, 0], sp[:, 1])(ld))
+                        ctx.count("cogas_share_vs_given_curves", "at a point" if any(abs(ld - x) < 1e-12 for x in gp[:, 0]) else "between points")
+                        if gv + sv > 0 and not close(g, gv / (gv + sv) * pc, scale=cg.rated_power, tol=1e-9):
+                            ctx.fail("predicate", "turbine-powers-do-not-follow-split-curves", f"step {t}: load {ld}: gas turbine {g} kW, the given curves give "
+                                     f"{gv:.6g} / ({gv:.6g} + {sv:.6g}) x {pc} = {gv / (gv + sv) * pc}", where)
     # a generator behind a rectifier: at the tabulated loads the machine's efficiency is generator x rectifier, each at its own load
     if kind == "genset" and case.get("rectifier"):
         g0 = plants.build_machine(case["generator"], TypePower.POWER_SOURCE, 1)
